@@ -177,6 +177,21 @@ fn main() {
         cx.matrix(key, true, &s, "random-text");
         if i % 3 == 0 { cx.matrix(key, false, &s, "random-binary"); }
     }
+    // internal buffer edges: payloads whose length sits at or next to a multiple of the
+    // normalisers' windows (512, 1024, 4096, 8192), ending in each line-ending shape
+    {
+        let tails: Vec<&[u8]> = vec![b"\r", b"\r\r", b"\n\r", b"\r\n", b"\n", b"x", b" \r"];
+        let sizes: Vec<usize> = if thorough { vec![511, 512, 513, 1023, 1024, 1025, 1536, 2048, 4095, 4096, 4097, 8192, 16384] } else { vec![511, 512, 513, 1024, 4096] };
+        for (i, &n) in sizes.iter().enumerate() {
+            for t in &tails {
+                let mut s = vec![b'a'; n - t.len()];
+                if n > 600 { s[255] = b'\n'; s[511] = if t.len() + 511 < n { b'\r' } else { s[511] }; }
+                s.extend_from_slice(t);
+                let key = [&k_ed4, &k_ed6, &k_ec][i % 3];
+                cx.matrix(key, true, &s, "window-edge-text");
+            }
+        }
+    }
     // several signers
     for text in [false, true] {
         for p in [&b"abc\n"[..], b"", b"x\r\ny\n"] {
